@@ -4,14 +4,20 @@ From CAres.Gen Require Import Consts.
 Local Open Scope Z_scope.
 
 (* ------------------------------------------------------------------ numeric ranges *)
+(* ndots within the documented 0..15, tries a 9-digit number, the timeout at most 4294967 s *)
 Definition sys_in_range (s : sysconfig) : Prop :=
-  0 <= s_ndots s < 2 ^ 32 /\ 0 <= s_tries s < 2 ^ 32 /\ 0 <= s_timeout_ms s < 2 ^ 32.
+  0 <= s_ndots s <= 15 /\ 0 <= s_tries s < 10 ^ 9 /\ 0 <= s_timeout_ms s <= 4294967000.
 
 Lemma u32_range z : 0 <= u32 z < 2 ^ 32.
 Proof. unfold u32. apply Z.mod_pos_bound. reflexivity. Qed.
 
-Lemma strtoul_range v : 0 <= strtoul10_u32 v < 2 ^ 32.
-Proof. unfold strtoul10_u32. destruct (num_front v). apply Z.mod_pos_bound. reflexivity. Qed.
+Lemma option_value_range vr v : option_value vr = Some v -> 0 <= v < 10 ^ 9.
+Proof.
+  unfold option_value. destruct vr as [|x r]; [discriminate|].
+  destruct (str_isnum x && (length x <=? 9)%nat) eqn:E; [|discriminate]. intros H; inversion H; subst.
+  apply andb_true_iff in E as [E1 E2]. apply Nat.leb_le in E2. unfold str_isnum in E1. apply andb_true_iff in E1 as [_ E1].
+  apply (atoi_digits x E1 E2).
+Qed.
 
 Lemma sys_init_in_range : sys_in_range sys_init.
 Proof. unfold sys_in_range, sys_init; simpl. lia. Qed.
@@ -21,15 +27,21 @@ Proof.
   intros (Hn & Ht & Hm) H. unfold process_option in H.
   destruct (buf_split_str [ch_colon] true false false 2 o) as [kv| |]; simpl in H; try discriminate.
   destruct kv as [|key vr]; [discriminate|].
-  set (valint := match vr with v :: _ => strtoul10_u32 v | [] => 0 end) in *.
-  assert (0 <= valint < 2 ^ 32) as Hv. { unfold valint. destruct vr; [lia|apply strtoul_range]. }
-  destruct (kw key on_ndots). { inversion H; subst. unfold sys_in_range; simpl. auto. }
-  destruct (kw key on_retrans || kw key on_timeout).
-  { destruct (valint =? 0); [discriminate|]. inversion H; subst. unfold sys_in_range; simpl. pose proof (u32_range (valint * 1000)). auto. }
-  destruct (kw key on_retry || kw key on_attempts).
-  { destruct (valint =? 0); [discriminate|]. inversion H; subst. unfold sys_in_range; simpl. auto. }
-  destruct (kw key on_rotate). { inversion H; subst. unfold sys_in_range; simpl. auto. }
-  destruct (kw key on_usevc1 || kw key on_usevc2); inversion H; subst; unfold sys_in_range; simpl; auto.
+  destruct (option_value vr) as [v|] eqn:Ev.
+  - pose proof (option_value_range vr v Ev) as Hv. change (10 ^ 9) with 1000000000 in *.
+    destruct (kw key on_ndots). { inversion H; subst. unfold sys_in_range; simpl. destruct (Z.ltb_spec 15 v); repeat split; lia. }
+    destruct (kw key on_retrans || kw key on_timeout).
+    { destruct (Z.eqb_spec v 0); [discriminate|]. destruct (Z.ltb_spec 4294967 v); [discriminate|]. cbn [orb] in H.
+      inversion H; subst. unfold sys_in_range; simpl. repeat split; lia. }
+    destruct (kw key on_retry || kw key on_attempts).
+    { destruct (v =? 0); [discriminate|]. inversion H; subst. unfold sys_in_range; simpl. repeat split; lia. }
+    destruct (kw key on_rotate). { inversion H; subst. unfold sys_in_range; simpl. auto. }
+    destruct (kw key on_usevc1 || kw key on_usevc2); inversion H; subst; unfold sys_in_range; simpl; auto.
+  - destruct (kw key on_ndots); [discriminate|].
+    destruct (kw key on_retrans || kw key on_timeout); [discriminate|].
+    destruct (kw key on_retry || kw key on_attempts); [discriminate|].
+    destruct (kw key on_rotate). { inversion H; subst. unfold sys_in_range; simpl. auto. }
+    destruct (kw key on_usevc1 || kw key on_usevc2); inversion H; subst; unfold sys_in_range; simpl; auto.
 Qed.
 
 Lemma set_options_loop_range opts : forall cfg cfg', sys_in_range cfg -> set_options_loop cfg opts = Ok cfg' -> sys_in_range cfg'.
@@ -41,7 +53,7 @@ Proof.
 Qed.
 
 Lemma set_options_range cfg s cfg' : sys_in_range cfg -> set_options cfg s = Ok cfg' -> sys_in_range cfg'.
-Proof. unfold set_options. destruct s; [discriminate|]. apply set_options_loop_range. Qed.
+Proof. unfold set_options. destruct s; [intros Hr H; inversion H; subst; exact Hr|]. apply set_options_loop_range. Qed.
 
 (* handlers that do not touch the numeric fields *)
 Definition same_numeric (c c' : sysconfig) : Prop :=
@@ -55,7 +67,10 @@ Lemma same_numeric_refl c : same_numeric c c.
 Proof. repeat split. Qed.
 
 Lemma config_search_numeric cfg s n cfg' : config_search cfg s n = Ok cfg' -> same_numeric cfg cfg'.
-Proof. unfold config_search. destruct (strsplit s s_sep_domains); [|discriminate]. intros H; inversion H; subst. repeat split. Qed.
+Proof.
+  unfold config_search. destruct s as [|s0 sr]; [intros H; inversion H; subst; apply same_numeric_refl|].
+  destruct (buf_split_str s_sep_domains false true true 0 (s0 :: sr)) as [[|x l]| |]; intros H; inversion H; subst; repeat split.
+Qed.
 
 Lemma config_lookup_numeric cfg b s cfg' : config_lookup cfg b s = Ok cfg' -> same_numeric cfg cfg'.
 Proof.
@@ -170,10 +185,9 @@ Proof.
   unfold sconfig_append. destruct (addr_blacklisted a); [intros H; inversion H; auto|].
   destruct (addr_is_linklocal a).
   - destruct i.
-    + intros H; inversion H. right. exists []. rewrite app_nil_r. reflexivity.
-    + destruct (sconfig_linklocal ifs (n :: i)) as [[[nm sc]|]| |]; simpl; try discriminate; intros H; inversion H; right.
-      * eexists. reflexivity.
-      * exists []. rewrite app_nil_r. reflexivity.
+    + intros H; inversion H. auto.
+    + destruct (sconfig_linklocal ifs (n :: i)) as [[[nm sc]|]| |]; simpl; try discriminate; intros H; inversion H; [right|auto].
+      eexists. reflexivity.
   - intros H; inversion H. right. eexists. reflexivity.
 Qed.
 
@@ -201,7 +215,8 @@ Lemma process_option_frame cfg o cfg' :
 Proof.
   unfold process_option. destruct (buf_split_str [ch_colon] true false false 2 o) as [kv| |]; simpl; try discriminate.
   destruct kv as [|key vr]; [discriminate|].
-  repeat match goal with |- context [if ?b then _ else _] => destruct b end; intros H; inversion H; subst; simpl; auto.
+  destruct (option_value vr);
+    repeat match goal with |- context [if ?b then _ else _] => destruct b end; intros H; inversion H; subst; simpl; auto.
 Qed.
 
 Lemma set_options_loop_frame opts : forall cfg cfg',
@@ -230,15 +245,15 @@ Proof.
   unfold resolv_dispatch.
   destruct (kw o k_domain).
   { destruct (s_domains cfg); [|intros H; inversion H; apply E_none; reflexivity].
-    unfold config_search. destruct (strsplit (v1 :: vr) s_sep_domains); [|discriminate].
-    intros H; inversion H. eapply E_domains. reflexivity. }
+    unfold config_search. destruct (buf_split_str s_sep_domains false true true 0 (v1 :: vr)) as [[|x l]| |];
+      intros H; inversion H; [apply E_none; reflexivity|eapply E_domains; reflexivity|apply E_none; reflexivity|apply E_none; reflexivity]. }
   destruct (kw o k_lookup || kw o k_hostresorder).
   { unfold config_lookup. destruct (buf_split_str s_sep_ws true false false 0 _); try (intros H; inversion H; apply E_none; reflexivity).
     destruct (lookup_fold a []) as [ls| |]; simpl; try discriminate.
     destruct ls; intros H; inversion H; [apply E_none; reflexivity|eapply E_lookups; reflexivity]. }
   destruct (kw o k_search).
-  { unfold config_search. destruct (strsplit (v1 :: vr) s_sep_domains); [|discriminate].
-    intros H; inversion H. eapply E_domains. reflexivity. }
+  { unfold config_search. destruct (buf_split_str s_sep_domains false true true 0 (v1 :: vr)) as [[|x l]| |];
+      intros H; inversion H; [apply E_none; reflexivity|eapply E_domains; reflexivity|apply E_none; reflexivity|apply E_none; reflexivity]. }
   destruct (kw o k_nameserver).
   { unfold sconfig_append_fromstr.
     destruct (append_entries nf ifs true (buf_split s_sep_servers false false false 0 (v1 :: vr)) (s_sconfig cfg)) as [l'| |] eqn:E; try discriminate.
